@@ -7,7 +7,13 @@ strides, stride-0 = expanded dimensions, offsets), a semiring, requires_grad fla
 it; the extracted check function (Model/EinsumCheck.v) judges the result with the dense specification
 `einsum_dense` applied to the brute-force denotations of the operands (exact carriers) and compares it with the
 Gallina model `einsum_model` of the algorithm, including the decisions of `reduce_equation` (observed by a spy).
-A second check function evaluates the certificate under which C07_patterned_eq_dense applies to the case."""
+A second check function evaluates the certificate under which C07_patterned_eq_dense applies to the case.
+Two further streams: (6) operands with an EMPTY physical axis inside a non-empty virtual extent (a + K(0) + b: all-default
+tensors) with defaults that are mostly not the semiring's zero; (7) HISTORIES: several calls (einsum / mv / mm /
+log_viterbi_einsum_forward) on the same operand objects, with in-place updates of their contents in between (writes
+through the storage, physical.mul_/add_/logical_not_, neg_(), *=), or equal-looking replacement objects (same axes
+objects and other contents; the same physical tensor under a new PatternedTensor, possibly with another default); every
+call is judged by the same check functions on the operands' contents at the time of the call."""
 import itertools, math, random, json, warnings, traceback
 from fractions import Fraction
 from harness.core import *
@@ -51,6 +57,7 @@ ASSUMPTIONS = [
     "torch_semiring_einsum (with the multiply callbacks of fggs.semirings) is the dense einsum the property refers to; the check compares its results with the exact-carrier specification, so a defect there would surface as a violation as well",
     "Real: float64 on small dyadic values (exact); Log: the operands are log(x) of dyadic x and the result is read through exp with relative tolerance 1e-9; Viterbi: integer log-weights and +-inf (exact); Bool exact",
     "the torch strides of the physical tensors are passed to the model as data (stride 0 = expanded dimension); storage is read through (offset, strides) exactly as torch does",
+    "histories: the contents of an operand after an in-place update are computed by the harness (new values written, x2, +1, negation, logical not) independently of the library and handed to the check function as the operand of that call; an update is performed under torch.no_grad() on the storage tensor the physical tensor is a view of (or through PatternedTensor.neg_ / *= on operands without expanded dimensions)",
 ]
 
 INF = math.inf
@@ -106,10 +113,12 @@ def gen_vals(sem, n, rng):
     if sem == "bool": return [rng.random() < 0.55 for _ in range(n)]
     if sem == "vit": return gen_ints(n, rng)
     return gen_reals(n, rng)
-def gen_default(sem, rng):
-    if sem == "bool": return rng.random() < 0.25
-    if sem == "vit": return -INF if rng.random() < 0.7 else rng.choice([0.0, 3.0, INF, -2.0])
-    return 0.0 if rng.random() < 0.7 else rng.choice([1.0, 2.5, INF, 0.25])
+def gen_default(sem, rng, p_zero=None):
+    """p_zero = probability of the semiring's own zero (None: the historical 0.75 for Bool, 0.7 otherwise)"""
+    if sem == "bool": return rng.random() < (0.25 if p_zero is None else 1.0 - p_zero)
+    if p_zero is None: p_zero = 0.7
+    if sem == "vit": return -INF if rng.random() < p_zero else rng.choice([0.0, 3.0, INF, -2.0])
+    return 0.0 if rng.random() < p_zero else rng.choice([1.0, 2.5, INF, 0.25])
 
 def to_torch_val(sem, x):
     if sem == "log": return -INF if x == 0 else (INF if x == INF else math.log(x))
@@ -146,7 +155,7 @@ def gen_operand(rng, types, pool, sem, p_bc=0.15, p_zero_default=None, **kw):
         strides[i] = acc; acc *= max(sizes[i], 1)
     off = rng.choice([0, 0, 0, 1, 2])
     nstore = off + sum((n - 1) * s for n, s in zip(sizes, strides) if n > 0) + 1
-    d = gen_default(sem, rng)
+    d = gen_default(sem, rng, p_zero_default)
     return dict(types=types, vaxes=vaxes, paxes=paxes, strides=strides, offset=off, default=d,
                 storage=gen_vals(sem, nstore, rng), rg=False), pool
 
@@ -154,7 +163,7 @@ def torch_dtype(sem):
     import torch
     return torch.bool if sem == "bool" else torch.float64
 
-def build_operand(spec, sem, world):
+def build_operand(spec, sem, world, with_storage=False):
     import torch
     from fggs.indices import PatternedTensor
     paxes = tuple(world.phys(k, n) for k, n in spec["paxes"])
@@ -163,7 +172,8 @@ def build_operand(spec, sem, world):
     phys = st.as_strided([n for _, n in spec["paxes"]], spec["strides"], spec["offset"])
     if spec["rg"]: phys = phys.detach().requires_grad_(True)
     assert list(phys.stride()) == list(spec["strides"]) or phys.numel() <= 1 or 0 in phys.shape, (phys.stride(), spec["strides"])
-    return PatternedTensor(phys, paxes, vaxes, to_torch_val(sem, spec["default"]))
+    t = PatternedTensor(phys, paxes, vaxes, to_torch_val(sem, spec["default"]))
+    return (t, st) if with_storage else t
 
 def wire_operand(spec, sem):
     return (list(spec["paxes"]), list(spec["strides"]), spec["offset"], spec["vaxes"],
@@ -186,6 +196,27 @@ def label_types():
         _TYPES = dict(small=[t for t in ts[1:] if U.tsize(t) <= 6], all=ts[1:], unit=("prod", []), zero=("atom", 0))
     return _TYPES
 
+def zero_sum_types():
+    """sum types with a zero-size summand: the virtual extent is non-zero although an axis that chooses the
+    zero-size summand has NO physical element (a + K(0) + b, a + (K(0) x J(2)) + b, ...): such a tensor is
+    all-default.  Summands of size 1 (unit leaves) are included in a third of them."""
+    z = ("atom", 0)
+    out = []
+    for a in (0, 1, 2, 3):
+        for b in (0, 1, 2, 3):
+            if a + b < 2: continue
+            parts = ([("atom", a)] if a else []) + [z] + ([("atom", b)] if b else [])
+            out.append(("sum", parts))
+    out.append(("sum", [("atom", 2), ("prod", [z, ("atom", 2)])]))
+    out.append(("sum", [("prod", [("atom", 2), z]), ("atom", 3)]))
+    out.append(("sum", [("sum", [z, ("atom", 2)]), ("atom", 2)]))
+    out.append(("prod", [("sum", [z, ("atom", 2)]), ("atom", 2)]))
+    return out
+
+def has_nested_zero(spec):
+    """some physical axis of size 0 although every dimension has a non-zero virtual extent"""
+    return any(n == 0 for _, n in spec["paxes"]) and all(U.a_numel(e) > 0 for e in spec["vaxes"])
+
 def gen_label_types(rng, nlabels, budget, feature=None):
     T = label_types()
     for _ in range(200):
@@ -197,11 +228,25 @@ def gen_label_types(rng, nlabels, budget, feature=None):
             else: ts.append(rng.choice(T["all"]))
         if feature == "zero" and nlabels: ts[rng.randrange(nlabels)] = T["zero"] if rng.random() < 0.7 else ("prod", [("atom", 0), ("atom", 2)])
         if feature == "unit" and nlabels: ts[rng.randrange(nlabels)] = T["unit"]
+        if feature == "zero-nested" and nlabels:
+            zs = zero_sum_types()
+            ts[rng.randrange(nlabels)] = rng.choice(zs)
+            if nlabels > 1 and rng.random() < 0.3: ts[rng.randrange(nlabels)] = rng.choice(zs)
         if math.prod(max(U.tsize(t), 1) for t in ts) <= budget: return ts
     return [("atom", 2)] * nlabels
 
-def gen_case(rng, sig, sem, budget=300, feature=None, variant="einsum"):
+def gen_case(rng, sig, sem, budget=300, feature=None, variant="einsum", p_zero_default=None):
     """a case = plain data, JSON-able"""
+    if feature == "zero-nested":
+        # keep drawing until some operand has an empty physical tensor inside a non-empty virtual shape
+        c = None
+        for _ in range(40):
+            c = _gen_case(rng, sig, sem, budget, feature, variant, p_zero_default)
+            if any(has_nested_zero(s) for s in c["ops"]): break
+        return c
+    return _gen_case(rng, sig, sem, budget, feature, variant, p_zero_default)
+
+def _gen_case(rng, sig, sem, budget=300, feature=None, variant="einsum", p_zero_default=None):
     inputs, output = sig
     nl = 1 + max([l for w in inputs for l in w] + [-1])
     ltypes = gen_label_types(rng, nl, budget, feature)
@@ -213,6 +258,8 @@ def gen_case(rng, sig, sem, budget=300, feature=None, variant="einsum"):
     ops = []
     kw = dict(p_phys=rng.choice([0.2, 0.35, 0.6, 0.9]), p_share=rng.choice([0.2, 0.4, 0.7]))
     if feature == "chain": kw = dict(p_phys=rng.choice([0.7, 0.9, 1.0]), p_share=rng.choice([0.0, 0.2]))
+    if feature == "zero-nested": kw = dict(p_phys=rng.choice([0.1, 0.2, 0.35]), p_share=rng.choice([0.2, 0.4]))
+    if p_zero_default is not None: kw["p_zero_default"] = p_zero_default
     for w in inputs:
         for _ in range(50):
             spec, pl = gen_operand(rng, [ltypes[l] for l in w], pool.copy() if share_pool else U.Pool(pool.next), sem,
@@ -268,13 +315,19 @@ class Spy:
 SPY = Spy()
 
 def run_impl(case):
-    """returns (result wire, spy wire, pointer wire or None, exception text or None)"""
+    """returns (result wire, spy wire, pointer wire or None, exception text or None, operands changed)"""
+    world = U.World()
+    built = [build_operand(s, case["sem"], world, with_storage=True) for s in case["ops"]]
+    return call_impl(case, [t for t, _ in built], [st for _, st in built])
+
+def call_impl(case, ts, sts=None):
+    """one call of the implementation on already built operand objects `ts` (`sts`: the storage tensors their
+    physical tensors are views of; snapshotted in full before the call and compared afterwards)"""
     import torch
     from fggs import indices
     sem = case["sem"]
-    world = U.World()
-    ts = [build_operand(s, sem, world) for s in case["ops"]]
-    before = [(t.physical.detach().clone(), t.paxes, t.vaxes, t.default) for t in ts]
+    before = [(t.physical, t.physical.detach().clone(), t.paxes, t.vaxes, t.default, tuple(t.physical.stride()), t.physical.storage_offset()) for t in ts]
+    before_st = [st.detach().clone() for st in (sts or [])]
     sr = semiring_of(sem)
     SPY.install(); SPY.rec = None
     variant = case["variant"]
@@ -301,12 +354,112 @@ def run_impl(case):
     except Exception as e:
         res = (2, [], []); exc = repr(e) + " " + traceback.format_exc()[-600:]
     spy = SPY.rec if SPY.rec is not None else (0, [], [])
-    # the operands must be unchanged
+    # the operands must be unchanged: same physical tensor object, same contents (the whole storage, not only the
+    # view), same strides / offset, same axes objects, same default
     changed = False
-    for t, (p0, pa, va, d0) in zip(ts, before):
-        if not U.same(t.physical.detach(), p0) or t.paxes is not pa or t.vaxes is not va or not (t.default == d0):
+    for t, (ph, p0, pa, va, d0, str0, off0) in zip(ts, before):
+        if t.physical is not ph or not U.same(t.physical.detach(), p0) or t.paxes is not pa or t.vaxes is not va or not (t.default == d0) \
+           or tuple(t.physical.stride()) != str0 or t.physical.storage_offset() != off0:
             changed = True
+    for st, s0 in zip(sts or [], before_st):
+        if not U.same(st.detach(), s0): changed = True
     return res, spy, ptr, exc, changed
+
+# ---------------------------------------------------------------------------- histories of calls on the same objects
+HOWS = ("copy", "scale", "neg", "imul", "fresh", "alias", "alias-default")
+
+def upd_values(sem, how, spec, rng):
+    """(new storage, new default) of an in-place update, computed by the harness independently of the library"""
+    st, d = spec["storage"], spec["default"]
+    if how in ("copy", "fresh", "alias", "alias-default"):
+        new = gen_vals(sem, len(st), rng)
+        if sem == "vit": new = [4.0 if x == INF else x for x in new]          # +inf only in the F23 stream
+        nd = d
+        if how == "alias-default":
+            for _ in range(20):
+                nd = gen_default(sem, rng, 0.3)
+                if sem == "vit" and nd == INF: nd = 4.0
+                if nd != d: break
+        return new, nd
+    if how == "scale":
+        if sem == "bool": return [not x for x in st], d
+        if sem == "vit": return [x + 1.0 for x in st], d                      # physical.add_(1.)
+        return [x * 2.0 for x in st], d                                        # Real: mul_(2.); Log: add_(log 2)
+    if how == "neg":    return [-x for x in st], -d                            # PatternedTensor.neg_ (Viterbi only)
+    if how == "imul":   return [x * 2.0 for x in st], d * 2.0                  # t *= 2. (Real, Viterbi)
+    raise ValueError(how)
+
+def how_allowed(sem, how, spec):
+    plain = 0 not in spec["strides"] or not spec["paxes"]                      # torch refuses in-place ops on expanded views
+    if how == "neg":  return sem == "vit" and plain
+    if how == "imul": return sem in ("real", "vit") and plain
+    return True
+
+def gen_history(rng, case, ncalls):
+    """steps[0] = the first call; every later step updates at least one operand IN PLACE (through the storage its
+    physical tensor views, through physical.mul_/add_, neg_(), *=) or replaces the operand object by an equal-looking one
+    (same axes objects, other contents; or the same physical tensor under a new PatternedTensor, possibly with another
+    default), then calls again -- possibly through the other entry point"""
+    sem = case["sem"]; n = len(case["ops"])
+    def variants(cur):
+        vs = ["einsum"]
+        if case["inputs"] == [[0, 1], [1]] and case["output"] == [0]: vs += ["mv", "mv"]
+        if case["inputs"] == [[0, 1], [1, 2]] and case["output"] == [0, 2]: vs += ["mm", "mm"]
+        # log_viterbi_einsum_forward computes inf + -inf = nan (finding F23): not after +inf appeared
+        if sem == "vit" and not any(x == INF for sp in cur for x in list(sp["storage"]) + [sp["default"]]): vs += ["vit"]
+        return vs
+    steps = [dict(variant=case["variant"], updates=[None] * n)]
+    cur = [dict(sp) for sp in case["ops"]]
+    for _ in range(ncalls - 1):
+        ups = [None] * n
+        idx = [i for i in range(n) if rng.random() < 0.6] or [rng.randrange(n)]
+        for i in idx:
+            how = rng.choice([h for h in HOWS if how_allowed(sem, h, cur[i])])
+            new, nd = upd_values(sem, how, cur[i], rng)
+            ups[i] = dict(how=how, storage=new, default=nd)
+            cur[i] = dict(cur[i], storage=new, default=nd)
+        steps.append(dict(variant=rng.choice(variants(cur)), updates=ups))
+    return steps
+
+def apply_update(sem, how, t, st, spec_new, world):
+    """performs the update on the library objects; returns the (possibly new) operand object and storage tensor"""
+    import torch
+    from fggs.indices import PatternedTensor
+    with torch.no_grad():
+        if how == "copy":
+            st.copy_(torch.tensor([to_torch_val(sem, x) for x in spec_new["storage"]], dtype=torch_dtype(sem)))
+        elif how == "scale":
+            if sem == "bool": st.logical_not_()
+            elif sem == "vit": st.add_(1.0)
+            elif sem == "log": st.add_(math.log(2.0))
+            else: st.mul_(2.0)
+        elif how == "neg": t.neg_()
+        elif how == "imul": t *= 2.0
+        elif how == "fresh":
+            return build_operand(spec_new, sem, world, with_storage=True)
+        elif how in ("alias", "alias-default"):
+            st.copy_(torch.tensor([to_torch_val(sem, x) for x in spec_new["storage"]], dtype=torch_dtype(sem)))
+            return PatternedTensor(t.physical, t.paxes, t.vaxes, to_torch_val(sem, spec_new["default"])), st
+    return t, st
+
+def run_history(case, upto=None):
+    """runs the calls of case["history"] on the same operand objects; yields (derived case, res, spy, ptr, exc, changed)
+    per call, the derived case carrying the operands' CURRENT contents (what the check function judges the call by)"""
+    sem = case["sem"]
+    world = U.World()
+    specs = [dict(sp) for sp in case["ops"]]
+    objs = [build_operand(sp, sem, world, with_storage=True) for sp in specs]
+    base = dict(case); base.pop("history", None)
+    for k, step in enumerate(case["history"]):
+        if upto is not None and k > upto: return
+        for i, u in enumerate(step["updates"]):
+            if u is None: continue
+            specs[i] = dict(specs[i], storage=list(u["storage"]), default=u["default"])
+            objs[i] = apply_update(sem, u["how"], objs[i][0], objs[i][1], specs[i], world)
+        derived = dict(base, ops=[dict(sp) for sp in specs], variant=step["variant"], call=k,
+                       feature="history", hist_base=dict(case, ops=[dict(sp) for sp in case["ops"]]))
+        res, spy, ptr, exc, changed = call_impl(derived, [o[0] for o in objs], [o[1] for o in objs])
+        yield derived, res, spy, ptr, exc, changed
 
 def wire_case(case, res, spy, ptr):
     sem = case["sem"]
@@ -480,6 +633,32 @@ def make_cases(tier, seed):
             ins.append(w)
         k = rng.randint(0, used); out = rng.sample(range(used), k)
         add((ins, out), SEMS[i % 4], budget=250)
+    # (6) an EMPTY physical axis inside a non-empty virtual extent (a + K(0) + b, ...): the operand is all-default, which
+    # is the semiring's zero only if its default is; defaults differ from the semiring's zero in most of these
+    nonempty = [s for s in sigs if s[0]]
+    for i in range(70 if quick else 2500):
+        var = "vit" if i % 6 == 5 else "einsum"
+        sem = "vit" if var == "vit" else SEMS[i % 4]
+        r = i % 10
+        if r == 0: c = gen_case(rng, ([[0, 1], [1]], [0]), sem, feature="zero-nested", p_zero_default=0.35); c["variant"] = "mv"
+        elif r == 1: c = gen_case(rng, ([[0, 1], [1, 2]], [0, 2]), sem, budget=200, feature="zero-nested", p_zero_default=0.35); c["variant"] = "mm"
+        else: c = gen_case(rng, rng.choice(nonempty), sem, feature="zero-nested", variant=var, p_zero_default=0.35)
+        cases.append(c)
+    # (7) histories: several calls on the SAME operand objects with in-place updates of their contents (or equal-looking
+    # replacement objects) in between; every call is judged on the contents at the time of the call
+    for i in range(75 if quick else 2500):
+        sem = SEMS[i % 4]
+        r = i % 5
+        feat = rng.choice([None, None, "broadcast", "freshen", "unit", "zero-nested"])
+        if r == 0: c = gen_case(rng, ([[0, 1], [1]], [0]), sem, feature=feat, p_zero_default=0.3); c["variant"] = "mv"
+        elif r == 1: c = gen_case(rng, ([[0, 1], [1, 2]], [0, 2]), sem, budget=200, feature=feat, p_zero_default=0.3); c["variant"] = "mm"
+        else:
+            var = "vit" if sem == "vit" and rng.random() < 0.5 else "einsum"
+            c = gen_case(rng, rng.choice(nonempty), sem, feature=feat, variant=var, p_zero_default=0.3)
+        if i % 3 and c["sem"] != "bool":          # requires_grad operands only in a third of the histories
+            for sp in c["ops"]: sp["rg"] = False
+        c["history"] = gen_history(rng, c, rng.choice([2, 2, 3]))
+        cases.append(c)
     return cases, n_sigs
 
 def run_jobs(jobs, seed):
@@ -497,17 +676,16 @@ def run(tier, seed):
     certs = {}
     hist = dict(semiring={}, variant={}, feature={}, operands={}, exceptions={})
     results = []
-    for ci, case in enumerate(cases):
-        try:
-            res, spy, ptr, exc, changed = run_impl(case)
-        except Exception as ex:
-            violations.append(Violation("harness could not build / run the case: %r" % (ex,), case=case, observed=traceback.format_exc()[-1500:],
-                                        corr="harness", failing_input_found=False))
-            continue
+    gen_cases = cases; cases = []           # `cases` = one entry per evaluated call (a history contributes one per call)
+    def record(case, res, spy, ptr, exc, changed, cert=True):
+        ci = len(cases); cases.append(case)
         results.append((ci, res, exc))
         for k, v in (("semiring", case["sem"]), ("variant", case["variant"]), ("feature", str(case["feature"])), ("operands", len(case["ops"]))):
             hist[k][v] = hist[k].get(v, 0) + 1
         if exc: hist["exceptions"][exc.split("(")[0]] = hist["exceptions"].get(exc.split("(")[0], 0) + 1
+        if any(has_nested_zero(sp) for sp in case["ops"]): hist.setdefault("empty_physical_in_nonempty_shape", {"n": 0})["n"] += 1
+        if any(sp["default"] != {"bool": False, "vit": -INF}.get(case["sem"], 0.0) for sp in case["ops"]):
+            hist.setdefault("some_default_not_semiring_zero", {"n": 0})["n"] += 1
         if changed:
             violations.append(Violation("einsum modified one of its operands", case=case, corr="corr:einsum (operands unchanged)", call="fggs.indices.einsum"))
         cf = checkfn_of(case)
@@ -515,9 +693,23 @@ def run(tier, seed):
         nenv = math.prod(max(n, 1) for sp in case["ops"] for _, n in sp["paxes"])
         if case["ops"] and nenv > CERT_LIMIT:
             hist.setdefault("certificate_skipped_too_large", {"n": 0})["n"] += 1
-        if case["ops"] and nenv <= CERT_LIMIT:
+        if cert and case["ops"] and nenv <= CERT_LIMIT:
             ccf = CERT_VIT if case["variant"] == "vit" else certfn_of(case)
             certs.setdefault(ccf.kind, (ccf, []))[1].append((ci, (wire_case(case, res, spy, ptr)[0], case["inputs"], case["output"], next_uid(case))))
+    for case in gen_cases:
+        try:
+            if "history" in case:
+                for derived, res, spy, ptr, exc, changed in run_history(case):
+                    hist.setdefault("history_call", {})[derived["call"]] = hist.setdefault("history_call", {}).get(derived["call"], 0) + 1
+                    for u in case["history"][derived["call"]]["updates"]:
+                        if u: hist.setdefault("history_update", {})[u["how"]] = hist.setdefault("history_update", {}).get(u["how"], 0) + 1
+                    record(derived, res, spy, ptr, exc, changed, cert=(derived["call"] == 0))
+            else:
+                record(case, *run_impl(case))
+        except Exception as ex:
+            violations.append(Violation("harness could not build / run the case: %r" % (ex,), case=case, observed=traceback.format_exc()[-1500:],
+                                        corr="harness", failing_input_found=False))
+            continue
     # reduce_equation / post_einsum called directly
     rrng = random.Random(seed * 7919 + 77)
     rcases = [gen_reduce_case(rrng, "real" if i % 2 else "vit") for i in range(150 if tier == "quick" else 6000)]
@@ -549,6 +741,9 @@ def run(tier, seed):
             if c == 3 and case["variant"] == "vit" and exc and exc.startswith("ValueError('nan')") and has_both_infs(case):
                 key = "viterbi_forward_posinf_plus_neginf_nan"
             what = "%s [%s]: %s (verdict %d)%s" % (case["variant"], case["sem"], VERDICTS.get(c, "?"), c, (" -- " + exc[:200]) if exc else "")
+            if case.get("call") is not None:
+                ups = [u["how"] for st in case["hist_base"]["history"][1:case["call"] + 1] for u in st["updates"] if u]
+                what += " -- call %d of a history on the same operand objects (judged on their contents at the time of the call; updates before it: %s)" % (case["call"], ", ".join(ups) or "none")
             if c < 10:
                 violations.append(Violation(what, case=case, observed=dict(result=res), oracle="einsum_dense on brute-force denotations (spec_verdict / argmax_ok)",
                                             corr="C07 check function " + cf.fn, call=call, finding_key=key))
@@ -562,7 +757,11 @@ def run(tier, seed):
                rule="cases = einsum signature x one typed patterned tensor per operand x semiring x requires_grad / grad mode; "
                     "signatures: all %d signatures with <= 3 operands, <= 4 indices (operand rank <= 3 and <= 5 index positions, or rank <= 2 and <= 6 positions; every ordered "
                     "selection of distinct output indices), all of them in thorough and a sample in quick, plus random larger ones, repeated output indices, an index with >= 4 attachments, the empty list, mv, mm, the Viterbi variant, and reduce_equation/post_einsum called directly on strided tensors with stride-0 and size-1 dimensions; "
-                    "patterns from the typed generator (exhaustive pairs of axes for the small types on i,i-> / i,i->i); non-trivial = some operand has a non-physical axis, a diagonal or an expanded (stride-0) dimension; distinct by full case data" % n_sigs,
+                    "patterns from the typed generator (exhaustive pairs of axes for the small types on i,i-> / i,i->i); "
+                    "stream (6): index types with a zero-size summand (a + 0 + b, a + (0 x 2), (0 + 2) x 2, ...), some operand choosing the empty summand (an empty physical axis inside a non-empty virtual extent), default != semiring zero in about 2/3 of the operands, einsum / mv / mm / Viterbi; "
+                    "stream (7): histories of 2-3 calls on the same operand objects (default != semiring zero in about 70%% of the operands), before every later call at least one operand is updated in place "
+                    "(copy into the storage, scale, neg_, *=) or replaced by an equal-looking object (fresh object over the same axes; same physical tensor under a new PatternedTensor, also with another default), the entry point may change between calls; every call is one evaluation judged on the contents at that time; "
+                    "the whole storage, strides, offset and identity of the physical tensor, axes and default of every operand are compared before/after each call; non-trivial = some operand has a non-physical axis, a diagonal or an expanded (stride-0) dimension; distinct by full case data" % n_sigs,
                signatures_enumerated=n_sigs, histogram=hist, verdicts=verdicts, kernel_reevaluated=kern,
                theorem_certificate=dict(cases=n_cert, verdicts=cert_hist,
                                         meaning="0 = the decidable premises of C07_patterned_eq_dense_partial / C07_zero_result_partial hold for the case (soundness and completeness); 1 = only those of the soundness half; other = the theorem does not apply (see notes). Run-time cross-check of C07_cert_premises_typed, which proves verdict 0 for every run on operands typed over good index types",
@@ -602,6 +801,9 @@ def case_of_json(c):
         s["default"] = _fix(s["default"])
         ops.append(s)
     c["ops"] = ops
+    if "history" in c:
+        c["history"] = [dict(variant=st["variant"], updates=[None if u is None else dict(how=u["how"], storage=[_fix(v) for v in u["storage"]], default=_fix(u["default"]))
+                                                              for u in st["updates"]]) for st in c["history"]]
     return c
 
 def replay(path):
@@ -612,8 +814,13 @@ def replay(path):
         code = run_coq(RED_REAL if c["sem"] == "real" else RED_TROP, [v], tag="replay")[0]
         print("case:", c); print("implementation now:", v[2], v[3], exc); print("verdict code:", code, VERDICTS.get(code, ""))
         return 1 if code else 0
-    case = case_of_json(r["case"])
-    res, spy, ptr, exc, changed = run_impl(case)
+    if r["case"].get("hist_base") is not None:
+        # a call of a history: re-run the whole history up to that call on the same objects
+        k = r["case"]["call"]
+        case, res, spy, ptr, exc, changed = list(run_history(case_of_json(r["case"]["hist_base"]), upto=k))[k]
+    else:
+        case = case_of_json(r["case"])
+        res, spy, ptr, exc, changed = run_impl(case)
     cf = checkfn_of(case)
     code = run_coq(cf, [wire_case(case, res, spy, ptr)], tag="replay")[0]
     print("case:", json.dumps(_jsonable_case(case))[:3000])
@@ -623,7 +830,7 @@ def replay(path):
 
 MANIFEST = dict(
     level="proof",
-    text="Coq theorems about a Gallina model of fggs.indices.einsum / log_viterbi_einsum_forward / project and fggs.equation.reduce_equation / post_einsum: the dense specification (empty list = one, zero-size summed index = zero, permutation invariance), the patterned algorithm equals the specification on the operands' denotations (re-indexing of the sum over virtual indices by the injective physical parametrisation; soundness half without the completeness premise; under decidable premises evaluated per case; WITHOUT premises for operands typed in a common context over good index types: C07_patterned_eq_dense_typed, all exits, any defaults, shared axes, __post_init__ included -- every certificate premise is derived from typing (C07_cert_premises_typed: the substitution is well typed and acyclic, unify is complete along the loop, default_to/freshen preserve the denotation), also mv/mm (C07_mv_typed, C07_mm_typed) and the Viterbi pointers (C07_argmax_typed)), reduce_equation is sound, the Viterbi pointers attain the maximum and are eval of the summed axes at the physical argmax (also for repeated output indices, repaired in /repo 3f6a623), mv/mm are instances. The model is tied to /repo by running both on generated signatures x typed patterns x 4 semirings x requires_grad; the specification applied to brute-force denotations judges every implementation output inside Coq (exact carriers).",
+    text="Coq theorems about a Gallina model of fggs.indices.einsum / log_viterbi_einsum_forward / project and fggs.equation.reduce_equation / post_einsum: the dense specification (empty list = one, zero-size summed index = zero, permutation invariance), the patterned algorithm equals the specification on the operands' denotations (re-indexing of the sum over virtual indices by the injective physical parametrisation; soundness half without the completeness premise; under decidable premises evaluated per case; WITHOUT premises for operands typed in a common context over good index types: C07_patterned_eq_dense_typed, all exits, any defaults, shared axes, __post_init__ included -- every certificate premise is derived from typing (C07_cert_premises_typed: the substitution is well typed and acyclic, unify is complete along the loop, default_to/freshen preserve the denotation), also mv/mm (C07_mv_typed, C07_mm_typed) and the Viterbi pointers (C07_argmax_typed)), reduce_equation is sound, the Viterbi pointers attain the maximum and are eval of the summed axes at the physical argmax (also for repeated output indices, repaired in /repo 3f6a623), mv/mm are instances. An operand with an empty physical axis is all-default whatever its virtual shape (C07_empty_physical_is_all_default / _denote). The model is tied to /repo by running both on generated signatures x typed patterns x 4 semirings x requires_grad, on operands with an empty physical axis inside a non-empty virtual extent and defaults other than the semiring zero, and on histories of calls on the same operand objects with in-place updates in between (each call judged on the contents at that time); the specification applied to brute-force denotations judges every implementation output inside Coq (exact carriers).",
     note="Known finding F23: log_viterbi_einsum_forward computes +inf + -inf = nan (torch_semiring_einsum's plain addition). Trusted: Coq kernel + vm_compute, extraction cross-checked against vm_compute, the Python harness (numbering of PhysicalAxis objects, reading of torch storage/strides, exp reading of the Log semiring within 1e-9), torch_semiring_einsum as the dense einsum under test.",
     technique="Coq proof (model + theorems) + model/implementation correspondence with a verified dense-specification oracle + per-case evaluation of the theorem's decidable premises",
     design_ref="DESIGN.md section 6, C07; section 7; Appendix A.6")
